@@ -64,7 +64,7 @@ def module_closure(roots):
     return sorted(seen)
 
 
-EXTRA_PROPS = {"C04": ["C04Par"], "C09": ["C09Hist"], "C16": ["C16Indep"]}
+EXTRA_PROPS = {"C04": ["C04Par"], "C09": ["C09Hist"], "C16": ["C16Indep"], "C02": ["C02Cmd"], "C05": ["C05Copy"], "C15": ["C05Copy"]}
 
 
 def audit(pid):
